@@ -11,7 +11,7 @@
 static const long NINF = -1000000, PINF = 1000000, XNAN = 999999;
 
 // strictly increasing maps from knot class m (-1 .. M+1) to doubles
-static const int NMAPS = 6;
+static const int NMAPS = 7;
 static double dmap(int map, int m, int M) {
 	switch (map) {
 		case 0: return m;
@@ -19,7 +19,8 @@ static double dmap(int map, int m, int M) {
 		case 2: return std::ldexp(1.0, 40 * m - 300);
 		case 3: return -std::ldexp(1.0, 300 - 40 * m);
 		case 4: return (4.0 * m) * std::numeric_limits<double>::denorm_min();
-		default: return 1e308 - (M - m) * 1e294;
+		case 5: return 1e308 - (M - m) * 1e294;
+		default: return (m - 0.5 * M) * (1.7e308 / (0.5 * M + 1));   // both signs, the knot range wider than DBL_MAX: no difference of knots may be formed
 	}
 }
 static double lattice_to_double(int map, long p, int M) {
